@@ -129,7 +129,7 @@ SPEC = dict(
         'timer_user_data': dict(file=H, sig=r'std::uintptr_t timer_user_data\(\) const', within=CTXC),
         'remove_timer_user_data': dict(file=H, sig=r'std::uintptr_t remove_timer_user_data\(\) const', within=CTXC),
         'try_submit_io': dict(file=H, sig=r'bool io_uring_context::try_submit_io\(PopulateFn populateSqe\) noexcept', ctx=tsi_ctx),
-        'acquire': dict(file=CPP, sig=r'void io_uring_context::acquire_completion_queue_items\(\) noexcept', ctx=acq_ctx, outline={0: 'VF_ACQ_LOOP;'}),
+        'acquire': dict(file=CPP, sig=r'void io_uring_context::acquire_completion_queue_items\(\) noexcept', ctx=dict(acq_ctx, post=list(acq_ctx.get('post', [])) + [(r'\A\{', '{ G.acq_calls++;')]), outline={0: 'VF_ACQ_LOOP;'}),   # entry hook: ghost call counter (no statement changed)
         'run_impl': dict(file=CPP, sig=r'void io_uring_context::run_impl\(const bool& shouldStop\)', ctx=run_ctx, outline={0: 'VF_RUN_LOOP;', 1: 'VF_PIO_LOOP;'}),
     },
     closed_world=[
